@@ -38,6 +38,8 @@ def run(ctx, chk):
     r7(ctx, chk)
     from .c12 import relative_now_rule
     relative_now_rule(ctx, chk, "C04.R8")
+    from .c12 import aware_value_untouched_rule
+    aware_value_untouched_rule(ctx, chk, "C04.R9")
 
 
 def _units(ctx):
